@@ -93,14 +93,28 @@ def kvec(d, wvln):
     return B([rdiv(rdiv(d[0], m) - 1, wvln), rdiv(rdiv(d[1], m), wvln), rdiv(rdiv(d[2], m), wvln)])
 
 
-def g_from_k(k, omega, wedge, chi):
-    """g = R(omega).C(chi).W(wedge).k"""
+def rotW(k, wedge):
     cw, sw = cosd(wedge), sind(wedge)
-    t = B([cw * k[0] + sw * k[2], k[1], -sw * k[0] + cw * k[2]])
+    return B([cw * k[0] + sw * k[2], k[1], -sw * k[0] + cw * k[2]])
+
+
+def rotC(t, chi):
     cc, sc_ = cosd(chi), sind(chi)
-    t = B([t[0], cc * t[1] + sc_ * t[2], -sc_ * t[1] + cc * t[2]])
+    return B([t[0], cc * t[1] + sc_ * t[2], -sc_ * t[1] + cc * t[2]])
+
+
+def rotR(t, omega):
     co, so = cosd(omega), sind(omega)
     return [co * t[0] + so * t[1], -so * t[0] + co * t[1], t[2]]
+
+
+def g_from_k(k, omega, wedge, chi):
+    """g = R(omega).C(chi).W(wedge).k"""
+    return rotR(rotC(rotW(k, wedge), chi), omega)
+
+
+def dot3(a, b):
+    return a[0] * b[0] + a[1] * b[1] + a[2] * b[2]
 
 
 def gvec(xyz, omega, wedge, chi, t, wvln):
